@@ -293,9 +293,9 @@ def handleDyn (j : Json) : R Json := do
         | _ => false
       if call == "parent" then
         let m := (parentX cfg ps (W 0) me os).2.2.2
-        let spv := Spec.parentOfW (W 0) low pid me.ctime
+        let spv := Spec.parentOfW cfg.rootGuarded (W 0) low pid me.ctime
         -- silent where an identity check cannot tell (own stat unreadable, same incarnation underneath)
-        let idHidden : Bool := spv != Spec.parentOfW (Wt 0) low pid me.ctime
+        let idHidden : Bool := spv != Spec.parentOfW cfg.rootGuarded (Wt 0) low pid me.ctime
         let sp : Json := if cached then Json.null
           else if pid == low then jObj (("kind", "ok") :: jParent none)
           else if flagsDead then nspJ
@@ -310,8 +310,8 @@ def handleDyn (j : Json) : R Json := do
       else
         let fuel := 4096 + 2
         let m := (parentsX cfg fuel ps W me os).2
-        let spv := Spec.chainDyn W low fuel 0 [pid] pid me.ctime []
-        let spt := Spec.chainDyn Wt low fuel 0 [pid] pid me.ctime []
+        let spv := Spec.chainDyn cfg.rootGuarded W low fuel 0 [pid] pid me.ctime []
+        let spt := Spec.chainDyn cfg.rootGuarded Wt low fuel 0 [pid] pid me.ctime []
         let idHidden : Bool := (jXOut jChain spv).compress != (jXOut jChain spt).compress
         let sp : Json := if cached then Json.null
           else if pid == low then jObj (("kind", "ok") :: jChain [])
